@@ -30,14 +30,34 @@ type negResult struct {
 	Note    string   `json:"note,omitempty"`
 }
 
-// runNegControls runs the rules of props ("all" or one id) on every refactored copy.  Loading and building a
-// copy costs the same whatever rules run afterwards, so the copies are always analysed with every property's
-// rules and the outcome is kept in <verif>/.cache keyed by the contents of the tree, of the refactorings, of the
-// known-findings file and of the checker binary: the thorough runs of the other properties on the same tree
-// reuse it.  The cache only ever short-cuts a recomputation; it is never needed and any change of an input
-// changes the key.
-func runNegControls(repo, dir, known, props string) []negResult {
-	all := negControlsAll(repo, dir, known)
+// runNegControls runs the rules of props ("all" or one id) on refactored copies of the tree.  Loading and
+// building a copy costs the same whatever rules run afterwards, so a copy is always analysed with every
+// property's rules and the outcome of each refactoring is kept in <verif>/.cache, keyed by the contents of the
+// tree, of the known-findings file, of the checker binary and of the refactoring itself: the thorough runs of
+// the other properties on the same tree reuse it.  When relevant is given (the source files in which the
+// property has obligations), only the refactorings that touch one of those files are analysed for this run —
+// a change elsewhere leaves every function the property's rules read as it is — so that no single thorough
+// command has to pay for all of them.  The cache only ever short-cuts a recomputation; it is never needed and
+// any change of an input changes the key.
+func runNegControls(repo, dir, known, props string, relevant map[string]bool) []negResult {
+	files, _ := filepath.Glob(filepath.Join(dir, "*.diff"))
+	sort.Strings(files)
+	if len(files) == 0 {
+		return nil
+	}
+	if props != "all" && len(relevant) > 0 {
+		var sel []string
+		for _, f := range files {
+			for _, t := range patchTouches(f) {
+				if relevant[t] {
+					sel = append(sel, f)
+					break
+				}
+			}
+		}
+		files = sel
+	}
+	all := negControlsFor(repo, dir, known, files)
 	if props == "all" || all == nil {
 		return all
 	}
@@ -52,6 +72,21 @@ func runNegControls(repo, dir, known, props string) []negResult {
 		}
 		o.Silent = len(o.Fired) == 0 && (r.Note == "" || !r.Applied)
 		out[i] = o
+	}
+	return out
+}
+
+// patchTouches: base names of the files a unified diff changes.
+func patchTouches(patch string) []string {
+	b, err := os.ReadFile(patch)
+	if err != nil {
+		return nil
+	}
+	var out []string
+	for _, l := range strings.Split(string(b), "\n") {
+		if strings.HasPrefix(l, "+++ b/") || strings.HasPrefix(l, "--- a/") {
+			out = append(out, filepath.Base(strings.TrimSpace(l[6:])))
+		}
 	}
 	return out
 }
@@ -97,18 +132,24 @@ func negCacheKey(repo string, files []string, known string) string {
 	return hex.EncodeToString(h.Sum(nil))[:24]
 }
 
-func negControlsAll(repo, dir, known string) []negResult {
-	const props = "all"
-	files, _ := filepath.Glob(filepath.Join(dir, "*.diff"))
-	sort.Strings(files)
+func fileHash(path string) string {
+	b, err := os.ReadFile(path)
+	if err != nil {
+		return "unreadable"
+	}
+	sum := sha256.Sum256(b)
+	return hex.EncodeToString(sum[:])[:12]
+}
+
+// negControlsFor returns the all-properties result of each given refactoring, from the cache or computed now.
+func negControlsFor(repo, dir, known string, files []string) []negResult {
 	if len(files) == 0 {
-		return nil
+		return []negResult{}
 	}
 	cacheDir := filepath.Join(filepath.Dir(dir), ".cache")
-	cacheFile := filepath.Join(cacheDir, "negctl-"+negCacheKey(repo, files, known)+".json")
-	// one computation at a time: thorough runs of several properties started together wait for the first one
-	// and then read its result
-	if os.MkdirAll(cacheDir, 0o755) == nil {
+	useCache := os.Getenv("VERIF_NO_CACHE") == "" && os.MkdirAll(cacheDir, 0o755) == nil
+	// one computation at a time: thorough runs started together wait for each other and share the results
+	if useCache {
 		if lf, err := os.OpenFile(filepath.Join(cacheDir, "lock"), os.O_CREATE|os.O_RDWR, 0o644); err == nil {
 			if syscall.Flock(int(lf.Fd()), syscall.LOCK_EX) == nil {
 				defer syscall.Flock(int(lf.Fd()), syscall.LOCK_UN)
@@ -116,27 +157,78 @@ func negControlsAll(repo, dir, known string) []negResult {
 			defer lf.Close()
 		}
 	}
-	if os.Getenv("VERIF_NO_CACHE") == "" {
-		if b, err := os.ReadFile(cacheFile); err == nil {
-			var cached []negResult
-			if json.Unmarshal(b, &cached) == nil && len(cached) == len(files) {
-				return cached
+	prefix := "negctl-" + negCacheKey(repo, nil, known) + "-"
+	res := make([]negResult, len(files))
+	have := make([]bool, len(files))
+	cachePath := func(f string) string {
+		return filepath.Join(cacheDir, prefix+strings.TrimSuffix(filepath.Base(f), ".diff")+"-"+fileHash(f)+".json")
+	}
+	var missing []string
+	var missingIdx []int
+	for i, f := range files {
+		if useCache {
+			if b, err := os.ReadFile(cachePath(f)); err == nil {
+				var r negResult
+				if json.Unmarshal(b, &r) == nil && r.Patch != "" {
+					res[i], have[i] = r, true
+					continue
+				}
+			}
+		}
+		missing = append(missing, f)
+		missingIdx = append(missingIdx, i)
+	}
+	if len(missing) == 0 {
+		return res
+	}
+	// the violations of the unchanged tree (what a refactored copy is compared with)
+	var base map[string]bool
+	basePath := filepath.Join(cacheDir, prefix+"BASE.json")
+	if useCache {
+		if b, err := os.ReadFile(basePath); err == nil {
+			var keys []string
+			if json.Unmarshal(b, &keys) == nil {
+				base = map[string]bool{}
+				for _, k := range keys {
+					base[k] = true
+				}
 			}
 		}
 	}
-	res := negControlsCompute(repo, files, known, props)
-	if os.MkdirAll(cacheDir, 0o755) == nil {
-		if b, err := json.Marshal(res); err == nil {
-			tmp := cacheFile + ".tmp"
-			if os.WriteFile(tmp, b, 0o644) == nil {
-				os.Rename(tmp, cacheFile)
+	if base == nil {
+		base, _ = violatedKeys(repo, "all", known)
+		if base == nil {
+			base = map[string]bool{}
+		}
+		if useCache {
+			var keys []string
+			for k := range base {
+				keys = append(keys, k)
+			}
+			sort.Strings(keys)
+			if b, err := json.Marshal(keys); err == nil {
+				os.WriteFile(basePath, b, 0o644)
 			}
 		}
-		// keep the directory small: one tree at a time matters
-		if ents, err := os.ReadDir(cacheDir); err == nil && len(ents) > 6 {
+	}
+	computed := negControlsCompute(repo, missing, known, "all", base)
+	for j, r := range computed {
+		res[missingIdx[j]] = r
+		if useCache && r.Patch != "" {
+			if b, err := json.Marshal(r); err == nil {
+				tmp := cachePath(missing[j]) + ".tmp"
+				if os.WriteFile(tmp, b, 0o644) == nil {
+					os.Rename(tmp, cachePath(missing[j]))
+				}
+			}
+		}
+	}
+	// results for other trees or binaries are of no use any more
+	if useCache {
+		if ents, err := os.ReadDir(cacheDir); err == nil {
 			for _, e := range ents {
-				if p := filepath.Join(cacheDir, e.Name()); p != cacheFile && e.Name() != "lock" {
-					os.Remove(p)
+				if e.Name() != "lock" && !strings.HasPrefix(e.Name(), prefix) {
+					os.Remove(filepath.Join(cacheDir, e.Name()))
 				}
 			}
 		}
@@ -144,8 +236,7 @@ func negControlsAll(repo, dir, known string) []negResult {
 	return res
 }
 
-func negControlsCompute(repo string, files []string, known, props string) []negResult {
-	base, _ := violatedKeys(repo, props, known)
+func negControlsCompute(repo string, files []string, known, props string, base map[string]bool) []negResult {
 	res := make([]negResult, len(files))
 	sem := make(chan struct{}, max(2, runtime.NumCPU()/2))
 	var wg sync.WaitGroup
